@@ -431,7 +431,7 @@ def _excuse(nan, esc, dosh, selfn, lossy0, lossy1, topnat, state, what):
 # `inputs` is an ordinary captured binding, so such a function is closed after capture and must carry the values
 # it saw to a fresh program that has OTHER inputs (round 4, seed C05-7: `inputs` left as a bare name on emission;
 # no in-process session of this check had a non-empty inputs record)
-INPUTS_JSON = '{"rate": 2, "fees": [1, 10], "tag": "a\\"b", "cfg": {"deep": [null, -0.5]}}'
+INPUTS_JSON = '{"rate": 2, "fees": [1, 10], "tag": "a\\"b", "cfg": {"deep": [null, -0.5]}, "if": 7, "return": [3, 4], "true": false}'
 INPUTS_PROGS = [
     ("f = x => x * inputs.rate + inputs.fees[1]", ["1", "2.5"]),
     ("f = x => [x, #rate, #fees, #tag, #cfg.deep, #missing]", ["0"]),
@@ -442,6 +442,12 @@ INPUTS_PROGS = [
     ("f = x => do {\n  r = #rate\n  return [r * x, keys(inputs)]\n}", ["3"]),
     ("mk = a => (x => [a, x, inputs.tag])\nf = mk(#fees)", ["1"]),
     ("f = x => map(inputs.fees, e => e * x + #rate)", ["2"]),
+    # fields spelled like reserved words: `#if` parses but `{..}.if` does not, so emission writes the index form
+    ("f = x => x * #if + #rate", ["5"]),
+    ("f = x => [#return, #true, #not, #output, x]", ["1"]),
+    ("f = x => #return[1] + x - #if!", ["1"]),
+    ("f = x => {\"if\": #if, r: #return, t: not #true}", ["0"]),
+    ("g = y => y + #if\nf = x => [g(x), (inputs => #if)({\"if\": x})]", ["2"]),
 ]
 
 
